@@ -161,6 +161,32 @@ ROUND5 = {
 for _k, _v in ROUND5.items():
     CLAIMED[_k]["text"] += " " + _v
 
+# what the sixth seeding round added
+ROUND6 = {
+ "C01": "Round 6: every crash-provoking construct also started with `go` from inside function bodies, closures, deferred functions, callbacks and nested goroutines (38 nesting contexts x 38 hazards); container storms (struct types with maps and slices 0-2 struct levels down made per goroutine), import storms (member stores through import expressions of a host-registered package against importers and readers) and module storms (two shared modules compared, formatted, dereferenced while written), each in a fresh child process with a canary afterwards.",
+ "C02": "Round 6: try shapes whose catch block leaves by return, throw or a runtime error and whose finally block holds the core (judged only once the finally block was entered); phase deep: cancellation landing beneath 20000-100000 pending script calls on 15 call paths, verdict from goroutine state and CPU burnt since the cancel.",
+ "C03": "Round 6: every source ParseSrc rejects (out-of-range and malformed literals, unterminated strings, syntax errors) must be rejected by vm.Execute and vm.ExecuteContext too, without running anything, also when the literal sits in one of 24 contexts that would never execute it.",
+ "C04": "Round 6: different closures of one shape handed to Go callbacks from one call site (loop body, function called again).",
+ "C05": "Round 6: both operands of every binary operator reaching it from ONE place (same name, copies, parameters, one element read twice, values the script computed: NaN, infinities, signed zeros), shared-leaf expression trees.",
+ "C06": "Round 6: phase inf (49 overflowing numerals of both signs against the infinities in every provenance: no numeral denotes an infinity) and phase typed (30 typed lists x 47 subjects: `in` and switch equal the OR of the observed == over the elements).",
+ "C07": "Round 6 seeds (operand order of > / >=, deferred direct-path calls with a failing operand, an int64 fast path evaluating its right operand twice) were reported by the existing generators.",
+ "C08": "Round 6: for-in over lists of 257-756 elements left by break, continue and return at any position; map loops nested in map loops after an earlier map loop of the same invocation.",
+ "C09": "Round 6: failing callbacks under callback types that declare an error result or a value and an error.",
+ "C10": "Round 6: phase conv (14 slot kinds x 5 value groups x 13 ways of storing with read-back: floats up to 2^64 into unsigned slots, one-byte strings >= 0x80 and characters above U+00FF into byte slots), needles that wrap, s[i] = s[i], map + map, stores at index len through the element the target is reached through.",
+ "C11": "Round 6: phase gocall (go-started Go functions and methods followed at once by other calls of the same arity: every call receives exactly its own arguments), phase twins (distinct Go types that print alike: function-local types of different layouts, text/template vs html/template), phase numedge (boundary floats through every conversion route into 16 numeric target types).",
+ "C12": "Round 6: values handed over as interface-kind reflect.Values (map elements, pointees) incl. modules, and reflect.Values read out of unexported struct fields (must be refused with every scope unchanged).",
+ "C13": "Round 6: phase snapshots (single writers going generation after generation in item order through Set/Define/script assignments on values, types and presence lanes; every Copy, DeepCopy, String and listing taken meanwhile must show each lane as g..g,g-1..g-1), values whose GoString reads the scope, read-only values.",
+ "C14": "Round 6: phase r6 - keymix/keyprogs (map keys whose hashability depends on the data behind an interface field: one tree and different programs run on hashable and unhashable data in both orders, each compared with the run alone in a fresh child process; a panic out of vm.Run is a violation) and loadmix (histories of same-length rewrites of a loaded file with pinned time stamps).",
+ "C15": "Round 6: phase openends (every operator, keyword and atom followed by 59 open tails - unterminated strings, raw strings, comments, half-written numbers - as first and second parts of the concatenation monitor), corpus prefixes and open-end mutants composed with partner texts.",
+ "C16": "Round 6: stage and consumer functions defined by an earlier call whose context is cancelled once it returned (ctx-released / run-released library programs in the stepped phase); blocked senders whose operand places are overwritten once the host has seen them parked (each message must be the value at the send statement).",
+ "C17": "Round 6: 31 kinds of error the callback can return (plain, wrapped, joined, host types incl. uncomparable ones, *parser.Error with and without position, *vm.Error, typed nils, sentinels): Walk returns that very value, unchanged; phase errkinds fails the callback at every position of every template with every kind.",
+ "C18": "Round 6: phase bytes-cwd-cr (script files with CR LF / lone CR line ends around multi-line raw strings; the command started from 9 combinations of working directory and script path with load() and file reads of relative paths; error texts with lone CR and CR LF - the diagnostic must be one line spelling the error text in the command's documented escaping).",
+ "C19": "Round 6: conversion results (toString, toByteSlice, toRuneSlice, typed-slice forms, keys) kept in variables and as map keys across later stores into their arguments by the script, the host and Go APIs; every misuse also as the call of a defer statement in 8 positions.",
+ "C20": "Round 6: phase bindpos (the operation runs inside the construct that binds the name: for-in over untyped lists, variadic tails, Go lists, typed slices, arrays, channels, map values; parameters of script- and Go-called callees; var), operand kinds whose pointer type is a Stringer / error and 512-byte arrays in the equality and concatenation templates, seven more live sites.",
+}
+for _k, _v in ROUND6.items():
+    CLAIMED[_k]["text"] += " " + _v
+
 def main():
     checks = []
     for pid in ALL:
